@@ -3,7 +3,7 @@ import bridge_common as bc
 
 ID = "C01"
 PROPERTIES_V = ["theories/Properties/C01.v"]
-MAKE_TARGETS = ["theories/Properties/C01.vo", "theories/Model/BridgeCases.vo"]
+MAKE_TARGETS = ["theories/Properties/C01.vo", "theories/Proofs/GenAgreeTree.vo", "theories/Model/BridgeCases.vo"]
 HARNESS = "bridge"
 HARNESS_ARGS = ["-prop", "c01", "-par", "4"]
 CASES_IMPORTS = bc.IMPORTS
@@ -44,7 +44,9 @@ LEVEL_TEXT = ("Kernel-checked theorems (abstract hash, all indices < 2^32, no bo
               "The executable instance (real Keccak) of the same definitions is compared with the real bridgesync processor on generated histories.")
 LEVEL_NOTE = ("Trusted: Coq kernel + vm_compute; Gallina Keccak (cross-checked); hand transcription of AddLeaf/initCache/Bridge.Hash and of the "
               "Solidity DepositContract; SQLite; the theorems that read stored nodes assume an injective node hash (stated hypothesis).")
-TECHNIQUE = "Coq proof by induction over tree height (frontier invariant) + differential correspondence via vm_compute"
+TECHNIQUE = ("Coq proof by induction over tree height (frontier invariant); the hashing loop of AddLeaf and CalculateRoot are TRANSLATED from the Go "
+             "source on every run (tools/go2coq -> Gen/GenAppendOnlyTree.v, Gen/GenTree.v) and proved equal to the model; differential "
+             "correspondence via vm_compute for the store, the processor and the contract")
 
 # Model/Contracts.v (the Solidity transcription) is validated on every run against the deployed contract bytecode
 import evm_common
